@@ -48,7 +48,8 @@ def schema_text(depth):
         lines.append(f'#l{k}: #site/"l{k}"/id{k}/#KEY <= #aux | {prev} | #zaux' + (' | #rootkey' if k == 1 else ''))
         prev = f'#l{k}'
     # the data name carries the identity (idK) of the key that may sign it: a pattern shared between packet and key rule
-    lines.append(f'#data: #site/"data"/id{depth}/x <= #zaux | {prev} | #aux' if depth >= 1 else f'#data: #site/"data"/_/x <= {prev}')
+    # ... and its last component is vetted by a function of the application (the schema's only user function)
+    lines.append(f'#data: #site/"data"/id{depth}/x & {{x: $nvfok("data")}} <= #zaux | {prev} | #aux' if depth >= 1 else f'#data: #site/"data"/_/x <= {prev}')
     # a catch-all rule that every data (and certificate-free four-component) name matches as well, signable only by keys nobody
     # holds: a packet name that matches several signed rules which bind different patterns
     lines.append('#misc: #site/_/_/_ <= #zaux')
@@ -56,6 +57,23 @@ def schema_text(depth):
     lines.append('#rootkey: #site/"KEY"/_ <= #root')
     lines.append('#amisc: #site/"data"/_/_ <= #aux')
     return '\n'.join(lines) + '\n'
+
+
+def nvfok(c, args):
+    return not bytes(c)[2:].startswith(b'deny')
+
+
+FNS = {'$nvfok': nvfok}
+# another application of the same process (its checkers are created AFTER ours) binds the same function name to the opposite policy
+RIVAL_FNS = {'$nvfok': lambda c, args: not nvfok(c, args)}
+RIVALS = []
+
+
+def new_checker(depth):
+    ck = Checker(compile_lvs(schema_text(depth)), FNS)
+    RIVALS.append(Checker(compile_lvs(schema_text(depth)), RIVAL_FNS))
+    del RIVALS[:-4]
+    return ck
 
 
 class Key:
@@ -120,7 +138,8 @@ class Hierarchy:
 
 
 DEVIATIONS = ['none', 'none', 'missing-signature-value', 'signature-type-mismatch', 'mismatched-identity', 'hmac-with-public-key', 'wrong-issuer-level', 'forged-signature', 'substituted-key', 'cert-timeout', 'cert-nack', 'unsigned',
-              'no-key-locator', 'locator-loop', 'foreign-hierarchy', 'digest-signed', 'keychain-holds-unanchored-cert', 'forged-cert-served-on-second-request', 'locator-is-prefix-of-anchor-name']
+              'no-key-locator', 'locator-loop', 'foreign-hierarchy', 'digest-signed', 'keychain-holds-unanchored-cert', 'forged-cert-served-on-second-request', 'locator-is-prefix-of-anchor-name',
+              'refused-by-the-application-function']
 _KC = {}
 
 
@@ -301,6 +320,11 @@ def build_case(rng, depth, dev, link=None):
         H.issue(1, Key(rng, 'ec', H.keys[1].name), 0, replace=True, locator=[bytes(c) for c in H.keys[0].name])
         for l2 in range(2, depth + 1):
             H.issue(l2, Key(rng, 'ec', H.keys[l2].name), l2 - 1, replace=True)
+    elif dev == 'refused-by-the-application-function':
+        # a perfectly signed packet whose name the schema's user function (as THIS application defines it) does not let pass
+        valid = False
+        link = depth + 1
+        suffix = b'deny' + suffix
     elif dev == 'foreign-hierarchy':
         valid = False
         H2 = Hierarchy(rng, depth, '%04x' % rng.getrandbits(16))
@@ -471,7 +495,7 @@ def check_anchor(ctx, rng):
         async def main(S):
             face = RecFace()
             the_app = appv1.NDNApp(face=face, keychain=KeychainDigest())
-            checker = Checker(compile_lvs(schema_text(depth)), {})
+            checker = new_checker(depth)
             try:
                 lvs_validator(checker, the_app, anchor, MemoryKeyStorage())
                 res['built'] = True
@@ -520,7 +544,7 @@ def check_histories(ctx, rng):
                 await asyncio.sleep(0)
                 srv = CertServer(face)
                 srv.served = served
-                checker = Checker(compile_lvs(schema_text(depth)), {})
+                checker = new_checker(depth)
                 vals = {}
                 for vid, (h, st) in vspec.items():
                     anchor = (H1 if h == 'H1' else H2).cert_wires[0]
@@ -675,7 +699,7 @@ def storage_of(kind):
 def make_checker(depth, variant):
     """The compiled schema as it comes from the compiler, or the same model after its optional tag-symbol table was discarded
     (documented as safe to discard)."""
-    ck = Checker(compile_lvs(schema_text(depth)), {})
+    ck = new_checker(depth)
     if variant % 2 == 0:
         return ck
     from ndn.app_support.light_versec import binary as bny
@@ -687,7 +711,7 @@ def make_checker(depth, variant):
         for nd in m.nodes:
             nd.sign_cons = list(nd.sign_cons)[::-1]
             nd.v_edges = list(nd.v_edges)[::-1]
-    return Checker.load(bytes(m.encode()), {})
+    return Checker.load(bytes(m.encode()), FNS)
 
 
 def leaf_under(rng, H, lvl, tag):
@@ -696,6 +720,72 @@ def leaf_under(rng, H, lvl, tag):
     iss = H.keys[lvl - 1]
     name, wire = derive_cert(k.name, 'iss', k.pub, iss.signer(H.cert_names[lvl - 1]), START, 10 * 365 * 86400)
     return k, [bytes(c) for c in name], bytes(wire)
+
+
+def check_long_run(ctx, rng):
+    """ONE validator that lives long: it validates packets of several hundred distinct signers (every certificate cached), then
+    every signer is asked about again - newest first, then oldest first - with a genuine packet (valid, retrievable chain: yes) and
+    with a packet that NAMES this signer's certificate but carries the signature of the signer seen last (no).  A bounded cache
+    may forget and fetch again; it may not answer with another certificate's key."""
+    n_sign = 300 if ctx.quick else 700
+    for storage_kind in (('default',) if ctx.quick else ('default', 'memory')):
+        depth = 1
+        H = Hierarchy(rng, depth, 'lr%02x' % rng.getrandbits(8))
+        served = {tuple(n): w_ for n, w_ in zip(H.cert_names[1:], H.cert_wires[1:])}
+        leaves = []
+        for j in range(n_sign):
+            k, cn, cw = leaf_under(rng, H, depth, b'u%03d' % j)
+            served[tuple(cn)] = cw
+            leaves.append((k, cn))
+        res = {'out': []}
+
+        def pkt(j, tag, signer_j=None):
+            k, cn = leaves[j]
+            sk = leaves[signer_j][0] if signer_j is not None else k
+            return bytes(make_data(SITE + [C(b'data'), C(b'id' + b'u%03d' % j), C(tag)], MetaInfo(), b'c', sk.signer(cn)))
+
+        async def main(S):
+            face = RecFace()
+            the_app = appv1.NDNApp(face=face, keychain=KeychainDigest())
+            main_task = asyncio.ensure_future(the_app.main_loop())
+            await asyncio.sleep(0)
+            srv = CertServer(face)
+            srv.served = served
+            checker = new_checker(depth)
+            v = lvs_validator(checker, the_app, H.cert_wires[0]) if storage_kind == 'default' else lvs_validator(checker, the_app, H.cert_wires[0], MemoryKeyStorage())
+
+            async def one(label, wire, exp):
+                try:
+                    ok = await asyncio.wait_for(validate(v, wire), 120)
+                except Exception as e:   # noqa
+                    ok = e
+                res['out'].append((label, ok, exp))
+            for j in range(n_sign):
+                await one(f'first-packet-of-signer-{j}', pkt(j, b'first'), True)
+            last = n_sign - 1
+            for order in (range(n_sign - 1, -1, -1), range(n_sign)):
+                for j in order:
+                    if j != last:
+                        await one(f'names-signer-{j}-signed-by-signer-{last}', pkt(j, b'x', signer_j=last), False)
+                    await one(f'later-packet-of-signer-{j}', pkt(j, b'again'), True)
+            res['fetches'] = len(srv.requests)
+            the_app.shutdown()
+            await asyncio.wait_for(main_task, 5)
+        S = vtime.run(main)
+        ctx.case(('long-run', storage_kind, n_sign), nontrivial=True)
+        ctx.event('long-lived-validator-with-hundreds-of-signers')
+        ctx.extra['long_run'] = {'signers': n_sign, 'validations': len(res['out']), 'certificate_fetches': res.get('fetches')}
+        if S.result != 'ok':
+            ctx.report(f'long-run-{S.result}', f'{S.error!r}', {'storage': storage_kind})
+            continue
+        nrep = 0
+        for label, ok, exp in res['out']:
+            if isinstance(ok, BaseException):
+                ctx.report(f'long-run:validator-raises:{type(ok).__name__}', f'{label}: {ok!r}', {'storage': storage_kind})
+            elif ok != exp:
+                nrep += 1
+                ctx.report('long-run:accepted-without-valid-chain' if ok else 'long-run:valid-chain-rejected',
+                           f'a validator that has seen {n_sign} signers said {ok} for {label}', {'storage': storage_kind, 'signers': n_sign} if nrep < 4 else None)
 
 
 def check_same_instance(ctx, rng):
@@ -810,6 +900,9 @@ def run(ctx):
     check_single(ctx, rng)
     check_anchor(ctx, rng)
     check_histories(ctx, rng)
+    if ctx.shard == 0:
+        check_long_run(ctx, rng)
+        ctx.need_event('long-lived-validator-with-hundreds-of-signers')
     need = ['valid-chain-over-a-slow-network', 'verdict-accept', 'verdict-reject', 'history-run', 'anchor-ok', 'anchor-wrong-name', 'same-instance-history', 'other-namespace-chain-named-outside-the-anchor-identity',
             'other-namespace-packet-signed-by-look-alike-certificate-key'] + ['deviation-' + d for d in set(DEVIATIONS)]
     for k in need:
